@@ -95,6 +95,7 @@ type outcome struct {
 	earlyReturn   bool
 	gateParked    bool // before:/after: places: the gated I/O operation was reached
 	peerWrites    int
+	spun          bool // Dial kept retrying reads on an expired deadline
 }
 
 // peerScript installs the scripted server on c.
@@ -286,6 +287,7 @@ func runScenario(t *testing.T, s scen) (o outcome) {
 		o.log = all
 		o.ops = after.ops
 		o.peerWrites = after.peerWrites
+		o.spun = after.spun
 		if s.RealTLS {
 			c.forceClose() // lets the TLS server goroutine of the peer end
 		}
@@ -307,6 +309,10 @@ func judge(c *mon.C, s scen, o outcome) bool {
 	}
 	if o.bubblePanic != "" && !strings.Contains(o.bubblePanic, "deadlock") {
 		c.Fail("bubble-panic/"+cls, "panic inside the scenario: "+o.bubblePanic, det())
+		return false
+	}
+	if o.spun {
+		c.Fail("spins-on-expired-deadline/"+cls, "Dial kept retrying reads that fail with a timeout (2000 in a row) instead of returning", det())
 		return false
 	}
 	if o.notReturned {
